@@ -15,6 +15,8 @@ COROLLARY of C01 (certificate valid) and C06/C08/C11 (the certificate is about t
         of that map has score 0 (C08's lemma);
   (iv)  the certificate obligations of C01 for the solvers used by the convex estimators (ProxNewton, and the extrapolation
         site obligations of AndersonCD / GroupBCD) are re-discharged in the same run.
+  (v)   the path functions (AndersonCD.path, MultiTaskBCD.path: contracts/paths.py) hand every solve a consistent (w, Xw) pair including the
+        intercept: the certificate of a grid point is then about the problem of THAT grid point (same obligations as C05).
 NOT decided (stated): agreement with sklearn/celer/LP solvers (external code), and that any iterative float algorithm
 actually reaches its fixed point (convergence).
 """
